@@ -64,7 +64,7 @@ theorem tyOK_scalarTy (names : List Name) {nm : Name} (h : isLeafKind (.scalar n
 theorem level_struct_ok {S : Schema} {ft : List (Name × Name)} {env : List Decl}
     {frag : Name → Name → List JMember → Option (List LeafAt)} {td : TypeDef}
     {sels : List Sel} {es : List FieldEntry} {names : List Name}
-    (hmem : Forall2 (MemberGood S env frag td) sels es) (hok : setOK S ft td sels = true)
+    (hmem : Forall2 (MemberGood S env frag (holderTable td.name sels) td) sels es) (hok : setOK S ft td sels = true)
     (hes : ∀ e ∈ es, isExported (fieldName e.key) = true ∧ tyOK names e.ty = true) :
     fieldsOK names (sortFields (es.map toGoField)) = true ∧
     nodupB ((sortFields (es.map toGoField)).map GoField.name) = true := by
@@ -81,8 +81,8 @@ theorem level_struct_ok {S : Schema} {ft : List (Name × Name)} {env : List Decl
 theorem level_actions_compile {S : Schema} {ft : List (Name × Name)} {env : List Decl}
     {frag : Name → Name → List JMember → Option (List LeafAt)} {td : TypeDef}
     {sels : List Sel} {es : List FieldEntry} {conds : Conds}
-    (hmem : Forall2 (MemberGood S env frag td) sels es)
-    (hconds : ∀ c f, Conds.has conds c f ↔ ∃ s ∈ sels, FragPair ft td s c f)
+    (hmem : Forall2 (MemberGood S env frag (holderTable td.name sels) td) sels es)
+    (hconds : ∀ c f, Conds.has conds c f ↔ ∃ s ∈ sels, FragPair ft (holderTable td.name sels) td s c f)
     (hok : setOK S ft td sels = true)
     (htn : td.isObject = false → (∃ s ∈ sels, isFieldSel s = false) → (typenameFieldOf sels).isSome = true) :
     (actionsOf S td ((typenameFieldOf sels).getD []) conds).all
@@ -91,7 +91,7 @@ theorem level_actions_compile {S : Schema} {ft : List (Name × Name)} {env : Lis
   simp only [setOK, Bool.and_eq_true] at hok'
   obtain ⟨hmok, hnd⟩ := hok'
   have hname := fs_nameInj hmem hnd
-  have chain : ∀ s ∈ sels, ∃ e ∈ es, MemberGood S env frag td s e ∧ toGoField e ∈ sortFields (es.map toGoField) := by
+  have chain : ∀ s ∈ sels, ∃ e ∈ es, MemberGood S env frag (holderTable td.name sels) td s e ∧ toGoField e ∈ sortFields (es.map toGoField) := by
     intro s hs
     obtain ⟨e, he, hg⟩ := Forall2.mem_left hmem s hs
     exact ⟨e, he, hg, mem_fs_iff.mpr ⟨e, he, rfl⟩⟩
@@ -156,14 +156,17 @@ def FragNames (ft : List (Name × Name)) (names : List Name) : Prop :=
 /-- The naming assumptions: neither an enum name nor a typedef name (`<Op>Data`, `<F>Fragment`; the
     list `tds`) begins with `sel` or coincides with one of the other kind. -/
 structure NamesHyp (S : Schema) (tds : List Name) : Prop where
-  enumNoSel : ∀ nm vs, TypeDef.enum nm vs ∈ S.types → startsWithSel nm = false
+  enumNoSel : ∀ nm vs, TypeDef.enum nm vs ∈ S.types → startsWithSel (goTypeName nm) = false
   tdNoSel : ∀ n ∈ tds, startsWithSel n = false
-  enumNotTd : ∀ nm vs, TypeDef.enum nm vs ∈ S.types → nm ∉ tds
+  enumNotTd : ∀ nm vs, TypeDef.enum nm vs ∈ S.types → goTypeName nm ∉ tds
+  /-- escaping (fix 08) does not identify two enum types (`int` and `int_`) -/
+  enumEscInj : ∀ nm vs nm' vs', TypeDef.enum nm vs ∈ S.types → TypeDef.enum nm' vs' ∈ S.types →
+    goTypeName nm = goTypeName nm' → nm = nm'
 
 /-- What a declaration's name looks like, given the state that emitted it. -/
 def NameShape (S : Schema) (tds : List Name) (st : St) : Decl → Prop
   | .sel n _ _ => ∃ td k, td ∈ S.types ∧ isComposite td = true ∧ n = n_sel ++ td.name ++ [95] ++ natDigits k ∧ k < st.count
-  | .enum n _ => n ∈ st.enums ∧ ∃ vs, TypeDef.enum n vs ∈ S.types
+  | .enum n _ => ∃ nm vs, n = goTypeName nm ∧ nm ∈ st.enums ∧ TypeDef.enum nm vs ∈ S.types
   | .typedef n _ _ => n ∈ tds
 
 /-- The declared names are distinct and have the expected shapes. -/
@@ -193,10 +196,10 @@ theorem nameInv_add_sel {S : Schema} {tds : List Name} (hN : NamesHyp S tds) {st
       have := sel_name_inj heq
       omega
     | enum n cs =>
-      obtain ⟨_, vs, hvs⟩ := this
+      obtain ⟨nm', vs, hn', _, hvs⟩ := this
       simp only [Decl.name] at heq
-      have h1 := hN.enumNoSel n vs hvs
-      rw [heq, List.append_assoc, List.append_assoc, startsWithSel_sel] at h1
+      have h1 := hN.enumNoSel nm' vs hvs
+      rw [← hn', heq, List.append_assoc, List.append_assoc, startsWithSel_sel] at h1
       cases h1
     | typedef n t f =>
       simp only [Decl.name] at heq
@@ -217,7 +220,7 @@ theorem nameInv_add_sel {S : Schema} {tds : List Name} (hN : NamesHyp S tds) {st
 
 theorem nameInv_add_enum {S : Schema} {tds : List Name} (hN : NamesHyp S tds) {st : St} (h : NameInv S tds st)
     {nm : Name} {vs : List Name} (hvs : TypeDef.enum nm vs ∈ S.types) (hnew : nm ∉ st.enums) (cs : List (Name × Name)) :
-    NameInv S tds { st with decls := st.decls ++ [.enum nm cs], enums := nm :: st.enums } := by
+    NameInv S tds { st with decls := st.decls ++ [.enum (goTypeName nm) cs], enums := nm :: st.enums } := by
   obtain ⟨hnd, hsh⟩ := h
   constructor
   · simp only [List.map_append, List.map_cons, List.map_nil, Decl.name]
@@ -237,8 +240,10 @@ theorem nameInv_add_enum {S : Schema} {tds : List Name} (hN : NamesHyp S tds) {s
       rw [← heq, hn, List.append_assoc, List.append_assoc, startsWithSel_sel] at h1
       cases h1
     | enum n cs' =>
+      obtain ⟨nm', vs', hn', hmem', hvs'⟩ := this
       simp only [Decl.name] at heq
-      exact hnew (heq ▸ this.1)
+      have := hN.enumEscInj nm' vs' nm vs hvs' hvs (by rw [← hn', heq])
+      exact hnew (this ▸ hmem')
     | typedef n t f =>
       simp only [Decl.name] at heq
       exact hN.enumNotTd nm vs hvs (heq ▸ this)
@@ -248,9 +253,11 @@ theorem nameInv_add_enum {S : Schema} {tds : List Name} (hN : NamesHyp S tds) {s
     · have := hsh d hd
       cases d with
       | sel n fs' acts' => exact this
-      | enum n cs' => exact ⟨List.mem_cons_of_mem _ this.1, this.2⟩
+      | enum n cs' =>
+        obtain ⟨nm', vs', h1, h2, h3⟩ := this
+        exact ⟨nm', vs', h1, List.mem_cons_of_mem _ h2, h3⟩
       | typedef n t f => exact this
-    · exact ⟨List.mem_cons_self, vs, hvs⟩
+    · exact ⟨nm, vs, rfl, List.mem_cons_self, hvs⟩
 
 theorem nameInv_add_typedef {S : Schema} {tds : List Name} (hN : NamesHyp S tds) {st : St} (h : NameInv S tds st)
     {n : Name} (hn : n ∈ tds) (hfresh : ∀ d ∈ st.decls, ∀ m t f, d = Decl.typedef m t f → m ≠ n) (ty : GoTy) (fwd : Bool) :
@@ -274,9 +281,9 @@ theorem nameInv_add_typedef {S : Schema} {tds : List Name} (hN : NamesHyp S tds)
       rw [← heq, hm, List.append_assoc, List.append_assoc, startsWithSel_sel] at h1
       cases h1
     | enum m cs' =>
-      obtain ⟨_, vs, hvs⟩ := this
+      obtain ⟨nm', vs, hm', _, hvs⟩ := this
       simp only [Decl.name] at heq
-      exact hN.enumNotTd m vs hvs (heq ▸ hn)
+      exact hN.enumNotTd nm' vs hvs (by rw [← hm', heq]; exact hn)
     | typedef m t f =>
       simp only [Decl.name] at heq
       exact hfresh _ hd m t f rfl heq
